@@ -143,6 +143,87 @@ pub fn check(sh: &Shared, c: &Case) -> Check {
     Ok(())
 }
 
+#[derive(Clone, Debug, Serialize, Deserialize)]
+pub enum Op {
+    Rename(String),
+    Push(Vec<D>),
+}
+
+#[derive(Clone, Debug, Serialize, Deserialize)]
+pub struct SeqCase {
+    pub d: D,
+    pub how: u8,
+    pub ops: Vec<Op>,
+}
+
+/// reference model of one mutator call on a description: Ok(new description) or Err (unchanged)
+fn model_step(d: &D, op: &Op) -> Result<D, ()> {
+    match op {
+        Op::Rename(n) => {
+            if d.k.is_named_atom() {
+                let mut x = d.clone();
+                x.name = n.clone();
+                Ok(x)
+            } else if d.k == Interval {
+                model_interval(n).map(D::interval).ok_or(())
+            } else if d.k == Placeholder {
+                Ok(d.clone())
+            } else {
+                Err(())
+            }
+        }
+        Op::Push(extra) => {
+            if d.k.is_multi() {
+                let mut x = d.clone();
+                x.kids.extend(extra.iter().cloned());
+                Ok(x)
+            } else {
+                Err(())
+            }
+        }
+    }
+}
+
+/// a history of mutator calls on ONE term instance; after every step the instance must equal
+/// the model's state (a failed call leaves it unchanged)
+pub fn check_sequence(sh: &Shared, c: &SeqCase) -> Check {
+    if !c.d.arity_ok() {
+        fail!("harness/bad-case", "description violates arity");
+    }
+    let mut t = if c.how == 0 { build_raw(&c.d) } else { build_ctor(&c.d) };
+    let mut model = c.d.clone();
+    sh.class(&format!("seq/len{}", c.ops.len()));
+    if c.ops.len() >= 2 {
+        sh.nontrivial(fp(c));
+        sh.sample(&format!("sequence/{:?}", c.d.k), || json!(c));
+    }
+    for (i, op) in c.ops.iter().enumerate() {
+        sh.eval();
+        let expected = model_step(&model, op);
+        let got: Result<Result<(), String>, String> = match op {
+            Op::Rename(n) => guard(|| t.set_atom_name(n).map_err(|e| e.to_string())),
+            Op::Push(extra) => {
+                let items: Vec<_> = extra.iter().map(build_raw).collect();
+                guard(|| t.push_components(items).map_err(|e| e.to_string()))
+            }
+        };
+        let got = match got {
+            Ok(r) => r,
+            Err(p) => fail!("sequence:panic", "step {i} ({op:?}) panicked: {p}\nstart {:?}", c.d),
+        };
+        if got.is_ok() != expected.is_ok() {
+            fail!("sequence:outcome", "step {i}: {op:?} on {:?} returned {} but the model says {}\nstart {:?}\nops {:?}", model.k, if got.is_ok() { "Ok" } else { "Err" }, if expected.is_ok() { "Ok" } else { "Err" }, c.d, c.ops);
+        }
+        if let Ok(next) = expected {
+            model = next;
+        }
+        if canon_t(&t) != canon_d(&model) {
+            fail!("sequence:state", "after step {i} ({op:?}) the term is {:?}\nmodel {:?}\nstart {:?}\nops {:?}", canon_t(&t), canon_d(&model), c.d, c.ops);
+        }
+    }
+    Ok(())
+}
+
 pub fn name_pool() -> Vec<&'static str> {
     vec![
         "", "7", "+7", "007", "+007", "-0", "-7", " 7", "7 ", "７", "٣", "1e3", "0x10", "1_000", "++7", "+", "-", "abc", "a b", "18446744073709551615", "18446744073709551616", "+18446744073709551615",
@@ -171,6 +252,20 @@ pub fn strategy() -> BoxedStrategy<Case> {
             Case { d, how, new_name, extra }
         })
         .boxed()
+}
+
+pub fn strategy_sequence() -> BoxedStrategy<SeqCase> {
+    let o = gen::TermOpts { depth: 2, size: 6, ..gen::TermOpts::main(0) };
+    let root = prop_oneof![55 => gen::term(o), 45 => gen::atom(o)];
+    let nm = prop_oneof![
+        60 => select(name_pool()).prop_map(|s| s.to_string()),
+        40 => gen::name(0, gen::NameProfile::Main),
+    ];
+    let op = prop_oneof![
+        45 => nm.prop_map(Op::Rename),
+        55 => vec(gen::term(gen::TermOpts { depth: 1, size: 3, ..o }), 0..=2).prop_map(Op::Push),
+    ];
+    (root, 0u8..2, vec(op, 1..=6)).prop_map(|(d, how, ops)| SeqCase { d, how, ops }).boxed()
 }
 
 pub fn small_scope() -> Vec<Case> {
@@ -220,6 +315,13 @@ pub fn streams() -> Vec<Box<dyn AnyStream>> {
             source: Source::Enum(Box::new(|_| Box::new(small_scope().into_iter()))),
             check: Box::new(check),
         }),
+        Box::new(Stream::<SeqCase> {
+            name: "sequences",
+            quick: 30_000,
+            thorough: 2_000_000,
+            source: Source::Gen(Box::new(strategy_sequence)),
+            check: Box::new(check_sequence),
+        }),
         Box::new(Stream::<Case> {
             name: "mutations",
             quick: 60_000,
@@ -232,7 +334,7 @@ pub fn streams() -> Vec<Box<dyn AnyStream>> {
 
 pub const PROP: Prop = Prop {
     id: "C17",
-    rule: "cases = (term description, build route, new name, list of 0..4 components incl. duplicates of existing ones); names from a pool of edge strings ('', '+7', '007', '-0', ' 7', full-width and Arabic digits, '1e3', usize::MAX, usize::MAX+1, 40-digit strings) ∪ arbitrary Unicode ∪ long digit strings; oracle: a reference model on descriptions (rename verbatim for the five named atoms; interval accepts exactly ^\\+?[0-9]+$ with value ≤ usize::MAX by decimal-string comparison; placeholder Ok/unchanged; others Err/unchanged; push appends in order to ordered compounds (image index untouched), unites into unordered ones, Err/unchanged for atoms, negation, differences, statements); plus constructor × name-pool × append-list enumeration; evaluations count mutator calls; non-trivial = push on a non-atom; distinct = fingerprint of the case",
+    rule: "cases = (term description, build route, new name, list of 0..4 components incl. duplicates of existing ones); names from a pool of edge strings ('', '+7', '007', '-0', ' 7', full-width and Arabic digits, '1e3', usize::MAX, usize::MAX+1, 40-digit strings) ∪ arbitrary Unicode ∪ long digit strings; oracle: a reference model on descriptions (rename verbatim for the five named atoms; interval accepts exactly ^\\+?[0-9]+$ with value ≤ usize::MAX by decimal-string comparison; placeholder Ok/unchanged; others Err/unchanged; push appends in order to ordered compounds (image index untouched), unites into unordered ones, Err/unchanged for atoms, negation, differences, statements); plus constructor × name-pool × append-list enumeration; stream sequences applies 1..6 mutator calls to ONE instance and compares with the model after every step; evaluations count mutator calls; non-trivial = push on a non-atom; distinct = fingerprint of the case",
     assumptions: &["canonical form as in C01 is used to compare pre/post states"],
     streams,
 };
